@@ -110,11 +110,12 @@ def run(ck, facts):
             if n.get("k") != "match" or not (n.get("sadt") or "").endswith("hir::types::Type"):
                 continue
             for arm in n["arms"]:
-                names = [x for x in C.calls_in(arm["b"]) if x.get("k") == "mcall" and x.get("m") == name_call]
+                inl = list(C.walk_inl(tool, arm["b"], 1, exclude=[fn["path"]]))
+                names = [x for x in inl if x.get("k") == "mcall" and x.get("m") == name_call]
                 if not names:
                     continue
-                incs = [x for x in C.calls_in(arm["b"]) if x.get("k") == "mcall" and x.get("m") in include_calls]
-                res.append((arm, names, incs))
+                incs = [x for x in inl if x.get("k") == "mcall" and x.get("m") in include_calls]
+                res.append((arm, names, incs, inl))
         return res
 
     def arg_local(call, idx=0):
@@ -123,10 +124,10 @@ def run(ck, facts):
     cg = tool.fn("c::ty::TyGenContext::gen_ty_name")
     pairs = arm_pairs(cg, "fmt_type_name_maybe_namespaced", ("fmt_decl_header_path",))
     ck.expect(len(pairs) >= 4, "R3", "c::gen_ty_name/arms", "%d arms name a custom type" % len(pairs), "only %d arms naming custom types found (4 counted)" % len(pairs), C.loc(cg))
-    for arm, names, incs in pairs:
+    for arm, names, incs, inl in pairs:
         v = arm["pat"].get("v")
         same = bool(incs) and arg_local(names[0]) == arg_local(incs[0])
-        inserted = any(x.get("k") == "mcall" and x.get("m") == "insert" and any(y.get("k") == "field" and y.get("n") == "includes" for y in C.walk(x["recv"])) for x in C.calls_in(arm["b"]))
+        inserted = any(x.get("k") == "mcall" and x.get("m") == "insert" and any(y.get("k") == "field" and y.get("n") == "includes" for y in C.walk(x["recv"])) for x in inl)
         ck.expect(same and inserted, "R3", "c::gen_ty_name/%s" % v, "names and includes the same id", "the %s arm names a custom type without inserting fmt_decl_header_path of the same id into header.includes" % v, C.loc(cg, arm.get("ln")))
     cpg = tool.fn("cpp::ty::TyGenContext::gen_type_name")
     n_cpp = 0
@@ -229,7 +230,7 @@ def run(ck, facts):
                 pred = C.strip(n["a"][0])
                 if pred.get("k") == "local":
                     pred = closures.get(pred.get("id"), pred)
-                zst = any(x.get("k") == "mcall" and x.get("m") == "is_empty" and any(y.get("k") == "field" and y.get("n") == "fields" for y in C.walk(x["recv"])) for x in C.walk(pred))
+                zst = any(x.get("k") == "mcall" and x.get("m") == "is_empty" and any(y.get("k") == "field" and y.get("n") == "fields" for y in C.walk(x["recv"])) for x in C.walk_inl(tool, pred, 2))
                 filt.append(zst)
         ok_ = filt == [True] and len(uses) == 1
         ck.expect(ok_, "R5", "c::gen_result_ty/%s-filtered" % name, "parameter used once, as receiver of the zero-field-struct filter",
